@@ -33,8 +33,15 @@ def render_readout(ro) -> str:
         i = ro.identification_line
         idv = i.identification
         return lib.hexs(i.manufacturer_id.encode("latin-1")) + "/" + ("N" if idv is None else lib.hexs(idv.encode("latin-1")))
-    return ":".join([lib.hexs(ro.as_bytes), _exc(valid), lib.hexs(ro.payload), _exc(expected),
-                     str(ro._calculated_crc), _exc(ident)])
+    # every accessor is read twice, the second time in the opposite order (identification before is_valid, ...):
+    # what a readout reports must not depend on which accessor was called first (no stale cache)
+    acc = [lambda: lib.hexs(ro.as_bytes), lambda: _exc(valid), lambda: lib.hexs(ro.payload), lambda: _exc(expected),
+           lambda: str(ro._calculated_crc), lambda: _exc(ident)]
+    first = [a() for a in acc]
+    second = [a() for a in reversed(acc)][::-1]
+    if first != second:
+        return "UNSTABLE(" + ":".join(first) + "|" + ":".join(second) + ")"
+    return ":".join(first)
 
 
 def render_readouts(rs) -> str:
